@@ -98,7 +98,8 @@ static void draw_script(Script& sc)
 #define TOKLEN 12
 #define MAXTOK 4
 #define MAXLINES (VNC + 3)
-struct Line { int ntok; int startsblank; char tok[MAXTOK][TOKLEN]; };
+// (token storage is a flat array: CBMC 6.11 loses stores through pointers to rows of a 2-D array member when the row is not a constant)
+struct Line { int ntok; int startsblank; char tok[MAXTOK * TOKLEN]; };
 static Line rec_line[MAXLINES];  // completed lines
 static int rec_nlines = 0;
 static Line cur;                 // the line being written (pushed to rec_line at the newline: one store at a symbolic position per line)
@@ -123,10 +124,10 @@ static void rec_put(char c)
    {
       if(cur.ntok >= MAXTOK) { rec_overflow = 1; return; }
       cur.ntok++; rec_intok = 1; rec_toklen = 0;
-      for(int k = 0; k < TOKLEN; ++k) cur.tok[cur.ntok - 1][k] = 0;
+      for(int k = 0; k < TOKLEN; ++k) cur.tok[(cur.ntok - 1) * TOKLEN + k] = 0;
    }
    if(rec_toklen >= TOKLEN - 1) { rec_overflow = 1; return; }
-   cur.tok[cur.ntok - 1][rec_toklen++] = c;
+   cur.tok[(cur.ntok - 1) * TOKLEN + rec_toklen] = c; rec_toklen++;
 }
 // string streams: append-only buffers, identified by the address of their ostream part
 #define NSS 2
@@ -155,6 +156,7 @@ extern "C" std::ostream& m_os_int(std::ostream* os, int v)
    return *os;
 }
 extern "C" std::ostream& m_endl(std::ostream& os) { stream_put(&os, '\n'); return os; }
+extern "C" std::ostream& m_os_manip(std::ostream* os, std::ostream& (*pf)(std::ostream&)) { return pf(*os); }   // os << endl
 extern "C" void m_ss_ctor(std::stringstream* self)
 {
    if(nssb >= NSS) { rec_overflow = 1; return; }
@@ -176,22 +178,22 @@ extern "C" bool m_readline(MPSInput* self)
    self->m_lineno++;
    if(!L.startsblank)
    {
-      if(L.ntok > 0) self->m_f0 = L.tok[0];
-      if(L.ntok > 1) self->m_f1 = L.tok[1];
+      if(L.ntok > 0) self->m_f0 = &L.tok[0];
+      if(L.ntok > 1) self->m_f1 = &L.tok[TOKLEN];
    }
    else
    {
-      if(L.ntok > 0) self->m_f1 = L.tok[0];
-      if(L.ntok > 1) self->m_f2 = L.tok[1];
-      if(L.ntok > 2) self->m_f3 = L.tok[2];
-      if(L.ntok > 3) self->m_f4 = L.tok[3];
+      if(L.ntok > 0) self->m_f1 = &L.tok[0];
+      if(L.ntok > 1) self->m_f2 = &L.tok[TOKLEN];
+      if(L.ntok > 2) self->m_f3 = &L.tok[2 * TOKLEN];
+      if(L.ntok > 3) self->m_f4 = &L.tok[3 * TOKLEN];
    }
    return true;
 }
 // NameSet: names by number, per set object
 #define NNS 2
 #define NSMAX 3
-struct NSModel { const void* self; int n; char name[NSMAX][TOKLEN]; };
+struct NSModel { const void* self; int n; char name[NSMAX * TOKLEN]; };
 static NSModel nsm[NNS];
 static int nnsm = 0;
 static NSModel* ns_find(const void* self) { for(int k = 0; k < NNS; ++k) if(k < nnsm && nsm[k].self == self) return &nsm[k]; return nullptr; }
@@ -207,9 +209,9 @@ extern "C" void m_ns_add(NameSet* self, DataKey& key, const char* str)
    NSModel* m = ns_find(self);
    if(!m || m->n >= NSMAX) { rec_overflow = 1; return; }
    int k = 0;
-   for(; k < TOKLEN - 1; ++k) { if(str[k] == 0) break; m->name[m->n][k] = str[k]; }
+   for(; k < TOKLEN - 1; ++k) { if(str[k] == 0) break; m->name[m->n * TOKLEN + k] = str[k]; }
    if(str[k] != 0) rec_overflow = 1;
-   for(; k < TOKLEN; ++k) m->name[m->n][k] = 0;
+   for(; k < TOKLEN; ++k) m->name[m->n * TOKLEN + k] = 0;
    key.idx = m->n; key.info = 0;
    m->n++;
 }
@@ -217,7 +219,7 @@ extern "C" int m_ns_number(const NameSet* self, const char* str)
 {
    const NSModel* m = ns_find(self);
    if(!m) return -1;
-   for(int k = 0; k < NSMAX; ++k) if(k < m->n && strcmp(m->name[k], str) == 0) return k;
+   for(int k = 0; k < NSMAX; ++k) if(k < m->n && strcmp(&m->name[k * TOKLEN], str) == 0) return k;
    return -1;
 }
 extern "C" bool m_ns_haskey(const NameSet* self, const DataKey& key)
@@ -228,11 +230,16 @@ extern "C" bool m_ns_haskey(const NameSet* self, const DataKey& key)
 extern "C" const char* m_ns_atkey(const NameSet* self, const DataKey& key)
 {
    const NSModel* m = ns_find(self);
-   return m->name[key.idx];
+   return &m->name[key.idx * TOKLEN];
 }
 static const char* name_model(char letter, int idx, const NameSet* ns, const DataKey& key, char* buf)
 {
-   if(ns != nullptr && m_ns_haskey(ns, key)) return m_ns_atkey(ns, key);
+   if(ns != nullptr && m_ns_haskey(ns, key))
+   {  // (*ns)[key], copied into the caller's buffer
+      const NSModel* m = ns_find(ns);
+      for(int r = 0; r < NSMAX; ++r) if(key.idx == r) for(int k = 0; k < TOKLEN; ++k) buf[k] = m->name[r * TOKLEN + k];
+      return buf;
+   }
    buf[0] = letter;                                                   // spxSnprintf(buf, 16, "x%d", idx)
    if(idx >= 10) { buf[1] = (char)('0' + idx / 10); buf[2] = (char)('0' + idx % 10); buf[3] = 0; }
    else { buf[1] = (char)('0' + idx); buf[2] = 0; }
@@ -294,6 +301,9 @@ static bool roundtrip(const Script& sc, bool usernames, int* rafter, int* cafter
    s->theRep = Solver::COLUMN;
    s->thevectors = s->colSet(); s->thecovectors = s->rowSet();            // as SPxSolverBase::initRep()
    s->Solver::spxout = &outmem.o;                                         // zero memory: verbosity ERROR, nothing is printed
+   new(&s->unitVecs) Array<UnitVectorBase<double> >();                    // as SPxSolverBase::reDim(): unit vectors for the slack columns
+   s->unitVecs.reSize(VNR > VNC ? VNR : VNC);
+   for(int k = 0; k < (VNR > VNC ? VNR : VNC); ++k) s->unitVecs[k] = UnitVectorBase<double>(k);
    b->spxout = &outmem.o;
    b->theLP = s;                                                          // as SPxBasisBase::load(): theLP, setRep() (sizes descriptor, matrix, ids)
    b->setRep();
